@@ -40,6 +40,11 @@ pub struct Inner {
     pub decisions: Vec<(usize, usize)>,
     pub panics: Vec<(usize, String)>,
     pub abort: bool,
+    /// actors parked at a point where they hold a lock (between two lock acquisitions)
+    pub holding: Vec<bool>,
+    /// lock holders released to run next to the primary actor because the primary seemed to be blocked on their lock
+    pub co_running: Vec<usize>,
+    pub co_scheduled: u64,
 }
 
 pub struct Sched {
@@ -53,6 +58,8 @@ pub enum Outcome {
     Completed,
     Deadlock(Vec<(usize, &'static str)>),
     Hang(usize, &'static str),
+    /// the running actor and the lock holders released to unblock it are all silent: a lock cycle
+    LockCycle(Vec<(usize, &'static str)>),
     /// the decision budget ran out (long-running but live): inconclusive, never judged
     Budget,
 }
@@ -72,6 +79,9 @@ impl Sched {
                 decisions: Vec::new(),
                 panics: Vec::new(),
                 abort: false,
+                holding: vec![false; n],
+                co_running: Vec::new(),
+                co_scheduled: 0,
             }),
             cv: Condvar::new(),
             tick: AtomicU64::new(1),
@@ -88,7 +98,7 @@ impl Sched {
             if g.abort {
                 return false;
             }
-            if g.running == Some(id) {
+            if g.running == Some(id) || g.co_running.contains(&id) {
                 return true;
             }
             g = self.cv.wait(g).unwrap_or_else(|e| e.into_inner());
@@ -103,15 +113,29 @@ impl Sched {
 
     /// park at a yield point; false = the run was aborted (the actor must unwind)
     pub fn park(&self, id: usize, site: &'static str) -> bool {
+        self.park_ex(id, site, false)
+    }
+
+    pub fn park_ex(&self, id: usize, site: &'static str, holding: bool) -> bool {
         let mut g = self.m.lock().unwrap_or_else(|e| e.into_inner());
         if g.abort {
             return false;
         }
         g.st[id] = St::Ready(site);
         g.last_site[id] = site;
-        g.running = None;
+        g.holding[id] = holding;
+        Self::release(&mut g, id);
         self.cv.notify_all();
-        self.wait_grant(id, g)
+        let ok = self.wait_grant(id, g);
+        ok
+    }
+
+    fn release(g: &mut Inner, id: usize) {
+        if g.running == Some(id) {
+            g.running = None;
+        } else {
+            g.co_running.retain(|x| *x != id);
+        }
     }
 
     fn block(&self, id: usize) -> bool {
@@ -127,7 +151,8 @@ impl Sched {
             let site = g.last_site[id];
             g.blocked_at[id].push(site);
         }
-        g.running = None;
+        g.holding[id] = false;
+        Self::release(&mut g, id);
         self.cv.notify_all();
         self.wait_grant(id, g)
     }
@@ -148,9 +173,8 @@ impl Sched {
         if let Some(p) = panic {
             g.panics.push((id, p));
         }
-        if g.running == Some(id) {
-            g.running = None;
-        }
+        g.holding[id] = false;
+        Self::release(&mut g, id);
         self.cv.notify_all();
     }
 
@@ -208,10 +232,47 @@ impl Sched {
         loop {
             let mut g = self.m.lock().unwrap_or_else(|e| e.into_inner());
             let t0 = Instant::now();
-            while let Some(r) = g.running {
-                let (g2, to) = self.cv.wait_timeout(g, Duration::from_millis(200)).unwrap_or_else(|e| e.into_inner());
+            let mut released_here: Vec<usize> = Vec::new();
+            let mut t_release = Instant::now();
+            loop {
+                let Some(r) = g.running else {
+                    if g.co_running.is_empty() {
+                        break;
+                    }
+                    // the primary has parked; let the released lock holders reach their next yield point as well
+                    let (g2, _) = self.cv.wait_timeout(g, Duration::from_millis(50)).unwrap_or_else(|e| e.into_inner());
+                    g = g2;
+                    if t0.elapsed() > hang_after && !g.co_running.is_empty() {
+                        let stuck = g.co_running.iter().map(|i| (*i, g.last_site[*i])).collect();
+                        return Outcome::LockCycle(stuck);
+                    }
+                    continue;
+                };
+                let (g2, to) = self.cv.wait_timeout(g, Duration::from_millis(60)).unwrap_or_else(|e| e.into_inner());
                 g = g2;
-                if to.timed_out() && t0.elapsed() > hang_after && g.running == Some(r) {
+                if !to.timed_out() || g.running != Some(r) {
+                    continue;
+                }
+                // the running actor is silent. If somebody is parked while holding a lock, the running actor may be
+                // waiting for exactly that lock: let the holders run on (one more every 60 ms).
+                let holder = (0..g.st.len()).find(|i| g.holding[*i] && matches!(g.st[*i], St::Ready(_)));
+                if let Some(h) = holder {
+                    g.st[h] = St::Running;
+                    g.holding[h] = false;
+                    g.co_running.push(h);
+                    g.co_scheduled += 1;
+                    released_here.push(h);
+                    t_release = Instant::now();
+                    self.cv.notify_all();
+                    continue;
+                }
+                if !released_here.is_empty() && t_release.elapsed() > Duration::from_secs(8) && released_here.iter().all(|h| g.co_running.contains(h)) {
+                    // everybody who could release the lock has been let go, and all of them are stuck too
+                    let mut stuck: Vec<(usize, &'static str)> = vec![(r, g.last_site[r])];
+                    stuck.extend(released_here.iter().map(|h| (*h, g.last_site[*h])));
+                    return Outcome::LockCycle(stuck);
+                }
+                if t0.elapsed() > hang_after && g.running == Some(r) {
                     let site = g.last_site[r];
                     return Outcome::Hang(r, site);
                 }
@@ -239,8 +300,11 @@ impl Sched {
                     return Outcome::Completed;
                 }
             }
+            let someone_holds = g.holding.iter().any(|h| *h);
             drop(g);
-            between(k);
+            if !someone_holds {
+                between(k);
+            }
             let mut g = self.m.lock().unwrap_or_else(|e| e.into_inner());
             // a probe cannot change eligibility except by waking somebody: recompute
             let eligible: Vec<usize> = (0..g.st.len()).filter(|i| matches!(g.st[*i], St::Ready(_))).collect();
@@ -270,6 +334,8 @@ impl Sched {
 pub struct Handle {
     pub sched: Arc<Sched>,
     pub id: usize,
+    /// also park at the points between two lock acquisitions
+    pub hold_points: bool,
 }
 
 /// Unwinds the actor thread when the run is aborted while it is parked inside library code.
@@ -278,6 +344,14 @@ pub struct AbortUnwind;
 impl VerifActor for Handle {
     fn yield_point(&self, site: &'static str) {
         if !self.sched.park(self.id, site) {
+            std::panic::resume_unwind(Box::new(AbortUnwind));
+        }
+    }
+    fn yield_point_holding(&self, site: &'static str) {
+        if !self.hold_points {
+            return;
+        }
+        if !self.sched.park_ex(self.id, site, true) {
             std::panic::resume_unwind(Box::new(AbortUnwind));
         }
     }
